@@ -1,7 +1,7 @@
 #!/bin/sh
 # Confirms a sub-agent's claims in its scratch worktree /tmp/mut-<id>: with the change the existing
 # suite passes and the demo fails; without it the demo passes. Writes /tmp/mut-<id>/deliver/confirm.txt
-id="$1"; wt=/tmp/mut-$id; d=$wt/deliver
+id="$1"; wt=${WT:-/tmp/mut-$id}; d=$wt/deliver
 export CARGO_NET_OFFLINE=true CARGO_TARGET_DIR=/tmp/seed-target-$id
 cd $wt || exit 2
 git checkout -q -- . ; git clean -fdq tests src
